@@ -202,7 +202,10 @@ func c05PeriodicAcrossRebalance(rng *rand.Rand, j int) *SessSpec {
 	sp := &SessSpec{NumVB: 1 + rng.Intn(4), Nodes: 1, AckSeed: rng.Int63(), Backlog: map[int][][]ItemSpec{}, Backend: "mem", API: true,
 		Membership: "dynamic", FirstInfo: [2]int{1, 1}, PNow: 0, PDefer: 1, Auto: true, IntervalMs: 15 + rng.Intn(30)}
 	ctr := 0
-	doc := func() ItemSpec { ctr++; return ItemSpec{K: "m", Key: []byte(fmt.Sprintf("p%d", ctr)), Val: []byte("{}")} }
+	doc := func() ItemSpec {
+		ctr++
+		return ItemSpec{K: "m", Key: []byte(fmt.Sprintf("p%d", ctr)), Val: []byte("{}")}
+	}
 	for vb := 0; vb < sp.NumVB; vb++ {
 		sp.Backlog[vb] = [][]ItemSpec{{doc()}}
 	}
